@@ -27,7 +27,7 @@ open M in
 def spec : M.Site → SiteSpec
   | .attempt0 => ⟨"strategy/hybrid.rs", "HybridProtection<T>::attempt", 0, "load", [.relaxed]⟩
   | .attempt1 => ⟨"strategy/hybrid.rs", "HybridProtection<T>::attempt", 1, "load", [.seqCst]⟩
-  | .fallback0 => ⟨"strategy/hybrid.rs", "HybridProtection<T>::fallback", 0, "load", [.acquire]⟩
+  | .fallback0 => ⟨"strategy/hybrid.rs", "HybridProtection<T>::fallback", 0, "load", [.seqCst]⟩
   | .casCx => ⟨"strategy/hybrid.rs", "<HybridStrategy<Cfg> as CaS<T>>::compare_and_swap", 0, "compare_exchange_weak", [.seqCst, .relaxed]⟩
   | .swap0 => ⟨"lib.rs", "ArcSwapAny<T,S>::swap", 0, "swap", [.seqCst]⟩
   | .fastGet0 => ⟨"debt/fast.rs", "Slots::get_debt", 0, "load", [.relaxed]⟩
